@@ -422,14 +422,8 @@ fn run_via_start_once(spec: &Spec) -> Option<Vec<(String, String)>> {
         .spawn()
         .expect("spawn");
     let addr: SocketAddr = format!("127.0.0.1:{port}").parse().unwrap();
-    let mut up = false;
-    for _ in 0..600 {
-        if std::net::TcpStream::connect(addr).is_ok() {
-            up = true;
-            break;
-        }
-        std::thread::sleep(Duration::from_millis(10));
-    }
+    // (the child itself holds the listening socket: see `net::wait_until_listening`)
+    let up = wait_until_listening(&mut child, port);
     if !up {
         let _ = child.kill();
         common::machinery("passage::start did not come up");
